@@ -1,8 +1,10 @@
 package main
 
 import (
+	"bufio"
 	"fmt"
 	"os"
+	"path/filepath"
 	"sort"
 	"strings"
 
@@ -57,6 +59,18 @@ func run(c *vh.Ctx) error {
 		res.Partial = append(res.Partial, "no Lean driver given: correspondence not checked in this run")
 	}
 
+	// ---- crash journal: if the code under test kills the process (stack overflow, deadlock, os.Exit) the result
+	// file written here survives and points at the case that was executing
+	inflight := filepath.Join(c.ReplayDir, "C19-inflight.replay")
+	if c.Out != "" {
+		prov := vh.NewResult("C19", c.Tier, c.Seed)
+		prov.Fail("crash", "", "the harness process died while executing the case in the replay file (fatal error in the code under test: unbounded recursion, deadlock or os.Exit)", inflight)
+		prov.Write(c.Out)
+		os.MkdirAll(c.ReplayDir, 0o755)
+		journalPath = inflight
+		defer func() { closeJournal(); os.Remove(inflight) }()
+	}
+
 	// ---- corpus first ----------------------------------------------------------------------------
 	for _, f := range vh.CorpusFiles("C19") {
 		body, comments, e := vh.ReadReplay(f)
@@ -79,6 +93,7 @@ func run(c *vh.Ctx) error {
 	runOne := func(i int, oracle bool, forceClash bool) error {
 		r := c.R.Fork()
 		k, p := genCase(r, oracle, forceClash)
+		startJournal(k)
 		w := newWorld(k, drv)
 		genSchedule(r, k, w, p)
 		if w.drvErr != nil {
@@ -188,6 +203,44 @@ func run(c *vh.Ctx) error {
 		"decodeNode and the Account RLP decoder are inputs of the model (views of blobs), not modelled",
 		"goroutines, peers, timeouts and retry accounting of the downloader loop are not modelled; deliveries, commits and restarts are explicit operations")
 	return nil
+}
+
+var (
+	journalPath string
+	journalFile *os.File
+	journalBuf  *bufio.Writer
+)
+
+func closeJournal() {
+	if journalFile != nil {
+		journalBuf.Flush()
+		journalFile.Close()
+		journalFile = nil
+	}
+}
+
+func startJournal(k *kase) {
+	if journalPath == "" {
+		return
+	}
+	closeJournal()
+	f, err := os.Create(journalPath)
+	if err != nil {
+		return
+	}
+	journalFile, journalBuf = f, bufio.NewWriterSize(f, 1<<16)
+	fmt.Fprintf(journalBuf, "# property C19\n# case in flight when the harness process died\n")
+	for _, l := range k.header() {
+		journalBuf.WriteString(l + "\n")
+	}
+	journalBuf.Flush()
+}
+
+func journalOp(op string) {
+	if journalFile != nil {
+		journalBuf.WriteString(op + "\n")
+		journalBuf.Flush()
+	}
 }
 
 func bucket(n int) string {
